@@ -106,7 +106,11 @@ type World struct {
 // New is the constructor for the kernel.
 func New() kernel.World { return &World{} }
 
-var months = []int{6, 20, 33, 45} // clearly inside the policy's lifetime brackets (<15, 15-27, 28-39, >39)
+// Whole-month lifetimes inside each bracket of the published policy table
+// (<15: 2 SCTs, 15-27: 3, 28-39: 4, >39: 5) and on both sides of every bracket
+// edge. NotBefore is the first of a month, so NotAfter = NotBefore + m months is
+// a lifetime of exactly m whole months under any reading of "months".
+var months = []int{6, 20, 33, 45, 14, 15, 27, 28, 39, 40}
 
 func wantTotal(m int) int {
 	switch {
